@@ -107,6 +107,8 @@ type Fake struct {
 	dlis       net.Listener
 	pendingTCP net.Conn
 	PingHang   int32 // net mode: pings are left unanswered (atomic)
+	// CutNextREST: net mode: the next POST of this action loses its connection before it is answered (not applied)
+	CutNextREST string
 }
 
 // Conn is one attachment of a fake to the controller (what Factory.Create returns).
